@@ -9,6 +9,7 @@ import (
 	"sort"
 
 	"verifharness/common"
+	_ "verifharness/engines/lookup"
 	_ "verifharness/engines/store"
 	_ "verifharness/engines/table"
 )
